@@ -502,7 +502,7 @@ class VTCase(unittest.TestCase):
             nf, ne, np_ = (int(x) for x in s[4:].split(','))
             k = 0
             for i in range(nf):
-                with self.subTest(i=k, **(vt.get('subp') or {})):
+                with self.subTest(*([vt['subm']] if 'subm' in vt else []), i=k, **(vt.get('subp') or {})):
                     emit('t', vt['n'], 'sub', k, 'f')
                     k += 1
                     self.fail('subfail %d' % i)
